@@ -124,11 +124,18 @@ class Gen:
                 t, w = self.target()
                 self.commit(w)
                 parts.append(t); vals.append(self.expr(2))
+        if n >= 1 and r.randrange(3) == 0:
+            # one starred item: it takes a surplus of 0 - 2 values
+            k = r.randrange(n)
+            if not parts[k].startswith(("(", "[")):
+                parts[k] = "*" + parts[k]
+                extra = [self.expr(2) for _ in range(r.randrange(0, 3))]
+                vals[k:k + 1] = extra
         br = r.choice(["()", "[]"])
         pat = br[0] + ", ".join(parts) + ("," if n == 1 and br == "()" else "") + br[1]
         kind = r.randrange(4)
         seq = ", ".join(vals)
-        val = [f"({seq},)", f"[{seq}]", f"iter([{seq}])", f"reversed([{seq}][::-1])"][kind]
+        val = [f"({seq},)" if vals else "()", f"[{seq}]", f"iter([{seq}])", f"reversed([{seq}][::-1])"][kind]
         return pat, val
 
     def stmt(self):
